@@ -22,7 +22,7 @@ def run_combinators(ctx, jobs, times_only=False, only_if=None):
     allb = vlib.concat([r["behaviours"] for r in results], os.path.join(ctx.out, "cases.ndjson"))
     if sum(r["n"] for r in results) == 0:
         raise ToolError("TLC emitted no cases (vacuous run)")
-    mism, summary, _ = run_bin(bindir, "combinators", ["replay", allb, ctx.seed] + (["--times-only"] if times_only else []), timeout=1200)
+    mism, summary, _ = vlib.run_bin_checked_too("combinators", ["replay", allb, ctx.seed] + (["--times-only"] if times_only else []), timeout=1200)
     ctx.evaluations += summary.get("replays", 0)
     ctx.traces += summary.get("behaviours", 0)
     ctx.extra["replay_summary"] = summary
@@ -52,7 +52,7 @@ def replay_comb(pid, v):
     os.makedirs(out, exist_ok=True)
     bp = os.path.join(out, "replay_one.ndjson")
     open(bp, "w").write(json.dumps(v["case"]) + "\n")
-    bindir = build_harness(["combinators"], v.get("features"), v.get("tag", "default"))
+    bindir = build_harness(["combinators"], v.get("features"), v.get("tag", "default"), checked=bool(v.get("mismatch", {}).get("build")))
     mism, summary, _ = run_bin(bindir, "combinators", ["replay", bp, v.get("seed", 1)] + (["--times-only"] if v.get("times_only") else []))
     return mism[0] if mism else None
 
